@@ -56,6 +56,12 @@ CHECKS["C01"] = dict(
    note="The reference interpreter is the trusted base (DESIGN.md Appendix A lists every rule and its source); disagreements were triaged against the reference text before being called defects.",
    ref="DESIGN.md section 5 C01, Appendix A")
 
+CHECKS["C07"] = dict(
+   technique="property-based differential testing: evaluation without the static checker vs file build with it",
+   text="Well-typed programs of the C01 generator's first-order fragment (incl. functional ops over tuples and strings, calls through tuple fields, computed selectors, heterogeneous tuples behind lists and selects, shadowing parameter names, module instantiation) that evaluate through eval_string (no checker) are built as files (checker + VM); the build must succeed and bind equal values. Programs that do not evaluate are discarded and counted.",
+   note="Assumes eval_string bypasses the checker and build(path) runs it first (environment.rs); runaway programs are bounded by the reference interpreter's size limits and the work-limit hook.",
+   ref="DESIGN.md section 5 C07")
+
 PENDING = {}
 
 def main():
@@ -101,6 +107,6 @@ def main():
     json.dump(m, open(os.path.join(here, "MANIFEST.json"), "w"), indent=1)
     print("wrote MANIFEST.json with", len(checks), "checks;", len(na), "not claimed")
 
-HOOK_COMMITS = ["dcce9ec"]
+HOOK_COMMITS = ["dcce9ec", "ed84aac"]
 if __name__ == "__main__":
     main()
